@@ -15,7 +15,7 @@ RULE = ("one evaluation = one (stack shape, construction route, operation): shap
 ASSUMPTIONS = ["siblings of an emitting/consuming sublayer inside the same group are unspecified by the statement: only 'at most once' is required of them",
                "for a deferred event only layers beyond the first receiving item are required to wait for the loop",
                "the deferred queue is shared by all stacks of a process; it is drained between cases"]
-REQUIRED = ["own_stack_interface_lookups", "passthrough_compositions", "passthrough_ok", "earlier_stacks_rechecked", "earlier_stacks_intact", "shape_ops", "event_ops", "detached_ops", "helper_combos", "default_stack_combos", "interface_lookups", "groups_seen"]
+REQUIRED = ["emitter_stacks", "emitter_cycles", "emitter_ok", "own_stack_interface_lookups", "passthrough_compositions", "passthrough_ok", "earlier_stacks_rechecked", "earlier_stacks_intact", "shape_ops", "event_ops", "detached_ops", "helper_combos", "default_stack_combos", "interface_lookups", "groups_seen"]
 EXHAUSTIVE = None
 
 LOG = []
@@ -671,6 +671,97 @@ def library_passthrough_compositions(acc, r, n):
             acc.count("passthrough_ok")
 
 
+def library_emitter_cycles(acc, r, n, stackmod):
+    """The library's own emitter of state events, YowNetworkLayer, at the bottom of stacks of recording layers (plain and parallel
+    groups): its dispatcher callbacks are called for several connections in a row. For every connection the 'connected' event is
+    seen once by every layer above at once, and the deferred 'disconnected' event once by the direct upper neighbour at once and
+    by every layer further up only when the stack's loop runs, once."""
+    from yowsup.stacks import YowStack, YowStackBuilder
+    from yowsup.layers import YowParallelLayer
+    from yowsup.layers.network import YowNetworkLayer
+    C, D = YowNetworkLayer.EVENT_STATE_CONNECTED, YowNetworkLayer.EVENT_STATE_DISCONNECTED
+    for k in range(n):
+        shape = rand_shape(r)
+        if len(shape) < 2:
+            shape = shape + ["L9"]
+        route = r.choice(["explicit", "implicit", "builder"])
+        w = {"helper": "library-emitter", "shape": shape, "route": route}
+        INSTANCES.clear()
+        del LOG[:]
+
+        def obj(it):
+            if isinstance(it, list):
+                classes = tuple(rec_class(m) for m in it)
+                return classes if route == "implicit" else YowParallelLayer(classes)
+            return rec_class(it)
+        try:
+            items = [YowNetworkLayer] + [obj(it) for it in shape]
+            if route == "builder":
+                b = YowStackBuilder()
+                for it in items:
+                    b.push(it)
+                st = b.build()
+            elif route == "implicit":
+                st = YowStack(tuple(items)[::-1], reversed=True)
+            else:
+                st = YowStack(tuple(items), reversed=False)
+        except Exception as e:  # noqa
+            acc.violation("emitter-build-raises:%s" % type(e).__name__, "building %r over the network layer raised %r" % (shape, e), w)
+            continue
+        net = st.getLayer(0)
+        if not isinstance(net, YowNetworkLayer):
+            acc.violation("emitter-not-at-bottom", "layer 0 of the stack is %s" % type(net).__name__, w)
+            continue
+        acc.count("emitter_stacks")
+        acc.case(["em", shape, route], nontrivial=True)
+        pump(stackmod)
+        first = shape[0] if isinstance(shape[0], list) else [shape[0]]
+        upper = [m for it in shape[1:] for m in (it if isinstance(it, list) else [it])]
+        ok = True
+        for cyc in range(r.choice([2, 3, 4])):
+            w["cycle"] = cyc
+            del LOG[:]
+            try:
+                net.onConnected()
+            except Exception as e:  # noqa
+                acc.violation("emitter-raises:connected:%s" % type(e).__name__, "onConnected raised %r" % (e,), w)
+                ok = False
+                break
+            seen = {m: len([1 for e_ in LOG if e_[0] == m and e_[1] == "event" and e_[2] == C]) for m in first + upper}
+            if any(v != 1 for v in seen.values()):
+                acc.violation("emitter-connected-count", "connection %d: the connected event was seen %s (expected once by every layer above the network layer)" % (cyc + 1, seen), w)
+                ok = False
+                break
+            del LOG[:]
+            net._disconnect_reason = r.choice([None, "x"])
+            try:
+                net.onDisconnected()
+            except Exception as e:  # noqa
+                acc.violation("emitter-raises:disconnected:%s" % type(e).__name__, "onDisconnected raised %r" % (e,), w)
+                ok = False
+                break
+            cnt = lambda m: len([1 for e_ in LOG if e_[0] == m and e_[1] == "event" and e_[2] == D])
+            early = {m: cnt(m) for m in upper if cnt(m)}
+            near = {m: cnt(m) for m in first}
+            if early:
+                acc.violation("emitter-deferred-delivered-before-loop", "connection %d: the deferred disconnected event reached %s before the stack's loop ran" % (cyc + 1, sorted(early)), w)
+                ok = False
+                break
+            if any(v != 1 for v in near.values()):
+                acc.violation("emitter-disconnected-neighbour-count", "connection %d: the direct upper neighbour saw the disconnected event %s" % (cyc + 1, near), w)
+                ok = False
+                break
+            pump(stackmod)
+            late = {m: cnt(m) for m in first + upper}
+            if any(v != 1 for v in late.values()):
+                acc.violation("emitter-disconnected-count", "connection %d: after the loop ran the disconnected event was seen %s (expected once everywhere)" % (cyc + 1, late), w)
+                ok = False
+                break
+            acc.count("emitter_cycles")
+        if ok:
+            acc.count("emitter_ok")
+
+
 def shards(tier, seed, nworkers):
     q = tier == "quick"
     specs = [{"kind": "helpers"}]
@@ -691,6 +782,7 @@ def run(spec, acc):
     if spec["kind"] == "helpers":
         helpers(acc)
         library_passthrough_compositions(acc, gen.rng(seed, ID, "passthrough"), 400)
+        library_emitter_cycles(acc, gen.rng(seed, ID, "emitter"), 150, stackmod)
         acc.sample({"helpers": "getProtocolLayers/getDefaultLayers x 16 flag combos, getDefaultStack x 32 x {no layer, layer}, positional args, pushDefaultLayers"})
         return
     if spec["kind"] == "exhaustive":
